@@ -75,6 +75,11 @@ def main():
         th0 = thg + np.array([rnd.uniform(-0.1, 0.1) for _ in range(n)])
         call('fmr.IKinSpaceConstrained', fmr.IKinSpaceConstrained, S.copy(), M.copy(), goal.copy(), th0.copy(), 1e-3, 1e-2, np.full(n, -2.0), np.full(n, 2.0), 40)
         call('fmr.TrVec', fmr.TrVec, M.copy(), v3.copy())
+        for n_small in (1, 3, 7):      # joint counts on both sides of the 6 rows of a screw table
+            n2, S2, M2 = mrargs.chain(rnd, n_small, revolute_only=True)
+            th2 = np.array([rnd.uniform(-1.0, 1.0) for _ in range(n2)])
+            goal2 = mr.FKinSpace(M2, S2, th2)
+            call('fmr.IKinSpaceConstrained[n=%d]' % n2, fmr.IKinSpaceConstrained, S2.copy(), M2.copy(), goal2.copy(), th2 + 0.2, 1e-3, 1e-2, np.full(n2, -2.0), np.full(n2, 2.0), 15)
         sp, g = sph.build(rnd)
         bj, tj = sph.local_joints(sp)
         h = sp._nominal_height
